@@ -663,6 +663,46 @@ def toTree (f : Forest) (leaves : List Leaf) : Nat → Chip → Option Tree
     let subs ← (f.kids c).mapM (fun e => (toTree f leaves n e.2).map fun t => (e.1, t))
     pure (.node c subs ((leaves.filter fun lf => lf.1 == c).map fun lf => lf.2))
 
+/-! ### specification vocabulary used by the theorems (and, where executable, by the oracle) -/
+
+/-- the meaning of one hop of the property: link `e.2.1` of chip `e.1` is a working link of a working
+chip, and leads to the working chip `e.2.2` (modulo the machine dimensions) -/
+def HopOk (m : Machine) (e : Chip × Nat × Chip) : Prop :=
+  e.2.1 < 6 ∧ linkOk m e.1 e.2.1 = true ∧ chipOk m e.2.2 = true ∧ e.2.2 = step m e.1 e.2.1
+
+/-- physical reachability over working links between working chips -/
+inductive Reach (m : Machine) : Chip → Chip → Prop
+  | refl (c : Chip) : Reach m c c
+  | hop {a b : Chip} (l : Nat) : Reach m a b → l < 6 → linkOk m b l = true →
+      chipOk m (step m b l) = true → Reach m a (step m b l)
+
+def InRange (m : Machine) (c : Chip) : Prop := 0 ≤ c.1 ∧ c.1 < (m.w : Int) ∧ 0 ≤ c.2 ∧ c.2 < (m.h : Int)
+
+/-- `path` is a chain of working links: each `(d, n)` leaves chip `n` over its working link `d` and
+arrives at the next chip of the path, the last one arrives at `sink` -/
+def chainTo (m : Machine) (sink : Chip) : List (Nat × Chip) → Bool
+  | [] => false
+  | [(d, n)] => decide (d < 6) && linkOk m n d && (step m n d == sink)
+  | (d, n) :: (d', n') :: r =>
+    decide (d < 6) && linkOk m n d && (step m n d == n') && chainTo m sink ((d', n') :: r)
+
+/-- what `a_star` promises: a chain of working links that starts at a chip of `sources`, touches no
+other chip of `sources`, and ends at a neighbour of `sink` -/
+def pathOk (m : Machine) (sources : List Chip) (sink : Chip) (path : List (Nat × Chip)) : Bool :=
+  chainTo m sink path &&
+  (match path with
+   | [] => false
+   | (_, s) :: rest => sources.contains s && rest.all (fun e => !sources.contains e.2))
+
+/-- every node of the forest is a working chip and every edge is a working hop -/
+def ForestLive (m : Machine) (f : Forest) : Prop :=
+  ∀ n, n ∈ f → chipOk m n.1 = true ∧ ∀ k, k ∈ n.2 → HopOk m (n.1, k.1, k.2)
+
+/-- consecutive hops starting at `start`: each `(d, c)` is reached from the previous chip over link `d` -/
+def hopsFrom (m : Machine) (start : Chip) : List (Nat × Chip) → Bool
+  | [] => true
+  | (d, c) :: r => decide (d < 6) && (c == step m start d) && hopsFrom m c r
+
 /-! ### strong connectivity of the working part of the machine -/
 
 def liveChips (m : Machine) : List Chip :=
@@ -814,6 +854,13 @@ def handle (op : String) (j : Json) : R Json := do
         ("leaves", jLeaves r.leaves),
         ("model_valid", jOpt (fun t => Json.bool (validTree m r.root sinks t)) tree)]))
     | .error e => pure (jErrE e)
+  | "path_ok" =>
+    let m ← machineOfJson j
+    pure (Json.bool (pathOk m (← (← arr j "sources").mapM chipOfJson) (← chipOfJson (← field j "sink"))
+      (← pathOfJson (← field j "path"))))
+  | "hops_from" =>
+    let m ← machineOfJson j
+    pure (Json.bool (hopsFrom m (← chipOfJson (← field j "start")) (← pathOfJson (← field j "path"))))
   | "valid_tree" =>
     let m ← machineOfJson j
     let sinks ← (← arr j "sinks").mapM sinkOfJson
